@@ -6,7 +6,7 @@ set -u
 PATCH=$(realpath "$1"); PID=$2; shift 2
 TESTS=0; if [ "${1:-}" = "--tests" ]; then TESTS=1; shift; fi
 S=$(mktemp -d /tmp/dsim-mutant-XXXXXX)
-trap 'rm -rf "$S"' EXIT
+if [ -z "${KEEP:-}" ]; then trap 'rm -rf "$S"' EXIT; else echo "KEEPING $S"; fi
 rsync -a --exclude .git --exclude __pycache__ /repo/ "$S/repo/"
 cd "$S/repo" && (patch -p1 -s < "$PATCH" || { echo "PATCH-FAILED"; exit 3; })
 if [ $TESTS = 1 ]; then
